@@ -542,11 +542,11 @@ func nativeReplays(repo, prop string, ld *symgo.Loaded, results []*harnessResult
 				switch {
 				case nr.Mismatch != "":
 					pr.hr.Confirm[pr.v] = nr.Mismatch
+				case pr.v.Kind == "assert" && contains(nr.AssertFails, pr.v.Label):
+					pr.hr.Confirm[pr.v] = "confirmed" // failed natively before any later assumption
 				case nr.AssumeFail:
 					pr.hr.Confirm[pr.v] = "assumption failed natively"
 				case pr.v.Kind == "panic" && nr.Panic != "":
-					pr.hr.Confirm[pr.v] = "confirmed"
-				case pr.v.Kind == "assert" && contains(nr.AssertFails, pr.v.Label):
 					pr.hr.Confirm[pr.v] = "confirmed"
 				case pr.v.Kind == "assert" && nr.Panic != "":
 					pr.hr.Confirm[pr.v] = "native run panicked instead: " + nr.Panic
